@@ -21,6 +21,7 @@ import builtins
 import keyword
 
 from sa import core
+from sa import facts
 from sa import setalg
 from sa import tpl
 from sa.formula import atom, implies, TRUE
@@ -306,9 +307,9 @@ def check(model, rep, tier):
                       witness='a parameter called %s' % nm)
   rep.unit('hand-built literal names', n_hb)
   # ag__ itself: injected as parameter of the factory, exported by get_extra_locals
-  gel = model.func('malt/impl/api.py', 'PyToPy.get_extra_locals')
-  ok = any(isinstance(n, ast.Dict) and [k.value for k in n.keys if isinstance(
-      k, ast.Constant)] == ['ag__'] for n in ast.walk(gel.node))
+  xl = facts.extra_locals(model)
+  gel = xl['func']
+  ok = xl['alias'] == 'ag__'
   rep.check(ok, 'HYG-FREE', '%s:ag__-alias' % gel.site,
             'the operator module must be injected under the single documented '
             'alias ag__', line=gel.node.lineno, nontrivial=False)
